@@ -15,6 +15,7 @@ being instantiated, nesting to any depth.
 -/
 import Rpft.Props.C02
 import Rpft.Lemmas.Sugar
+import Rpft.Compile
 set_option linter.unusedSimpArgs false
 set_option linter.unusedVariables false
 namespace Rpft.Props.C03
@@ -81,6 +82,39 @@ theorem loop_without_variable (I : Iface Raw Inst Ctx Val Hdr Err) (ctx : Ctx) (
     (hv : I.loopVars i = none) :
     evItem I ctx (.forLoop b body) = .error I.noVarErr := by
   simp [evItem, hi, hinc, hv]
+
+/-! ### end to end on the models: parser structure ∘ compiler -/
+
+/-- what the compiler model reads of a begin row -/
+structure BeginHdr where
+  edges : List Compile.Edge
+  starting : Bool
+  rowId : Str
+  deriving DecidableEq, Repr
+
+def toCompileEvent : Ev Compile.Row BeginHdr → Compile.Event
+  | .row r => .row r
+  | .open_ h => .openGroup h.edges h.starting
+  | .close h => .closeGroup h.rowId
+
+/-- the flow the models assign to a sheet tree in a context: parser events, then the compiler
+machine (`Rpft/Compile.lean`, tied to the real FlowParser by exact comparison) -/
+def compileSheet {Raw Ctx Val Err : Type} (I : Iface Raw Compile.Row Ctx Val BeginHdr Err)
+    (noArgs testTypes : List Str) (ctx : Ctx) (its : List (Item Raw)) :
+    Except Err (Except Compile.Err Compile.Out) :=
+  match evItems I ctx its with
+  | .error e => .error e
+  | .ok es => .ok (Compile.compile noArgs testTypes (es.map toCompileEvent))
+
+/-- **compile ∘ desugar = compile**: on the models, for every sheet tree, context and template
+interface satisfying `Laws`, the sugared sheet and its desugared form compile to the SAME flow
+(the same final machine output, identifier counter included) — not merely to equivalent ones. -/
+theorem compile_desugar {Raw Ctx Val Err : Type} (I : Iface Raw Compile.Row Ctx Val BeginHdr Err)
+    (L : Laws I) (noArgs testTypes : List Str) (its its' : List (Item Raw)) (ctx ctx' : Ctx)
+    (h : dsItems I ctx its = .ok its') :
+    compileSheet I noArgs testTypes ctx' its' = compileSheet I noArgs testTypes ctx its := by
+  obtain ⟨es, h1, h2⟩ := events_desugar I L its its' ctx h
+  simp [compileSheet, h1, h2 ctx']
 
 /-! ### a concrete interface: non-vacuity of `Laws` and a worked unrolling -/
 
